@@ -563,6 +563,37 @@ func monC06(x *Ctx) {
 			continue
 		}
 		cleanDump := dumpTF(clean)
+		// a target that already holds values of another Go type, nil interfaces, nil Attrs / Elems
+		// (at any depth): CopyTo must not panic
+		{
+			var pos []fpos
+			positions(x.Root, clean, x.Root.Name, "", nil, &pos)
+			for k := 0; k < 40 && len(pos) > 0; k++ {
+				tgt := deepCopyTF(clean).(types.Object)
+				n := 1 + x.prf.Int(4, in, fmt.Sprint(k), "wsize")
+				var where []string
+				for j := 0; j < n; j++ {
+					p := pos[x.prf.Int(len(pos), in, fmt.Sprint(k, j), "wpos")]
+					cand := faultsAt(p)
+					f := cand[x.prf.Int(len(cand), in, fmt.Sprint(k, j), "wkind")]
+					if f.kind == "delete" {
+						continue
+					}
+					func() {
+						defer func() { recover() }() // a position may have vanished under an earlier fault
+						tgt = f.apply(tgt)
+						where = append(where, f.kind+"@"+p.TFPath)
+					}()
+				}
+				x.Eval(1)
+				x.Count("to-malformed-existing-values", 1)
+				out := x.CopyTo(src, &tgt)
+				if out.Panic != nil {
+					x.Violate(fmt.Sprintf("to/panic/malformed-existing-value/%s/%s", panicClass(out.Panic), x.nilEmbedClass(src)), fmt.Sprintf("%s/w%d", in, k),
+						"CopyTo panicked on a target that holds malformed values", map[string]interface{}{"faults": where, "panic": panicDetail(out)})
+				}
+			}
+		}
 		levels := map[string]*tlevel{}
 		x.visitLevels(x.Root, reflect.ValueOf(src).Elem(), nil, false, levels)
 		keys := make([]string, 0, len(levels))
